@@ -225,6 +225,7 @@ class MesonVersionStringHolder(StringHolder):
                        'does not support overriding minimum meson_version checks.')
         else:
             self.interpreter.tmp_meson_version = version_check_to_range(args[0])
+            self.interpreter.tmp_meson_version_node = self.current_node
 
         return version_compare_many(self.held_object, args[0])[0]
 
